@@ -179,6 +179,9 @@ CFG = {
         "startStream / Run.poll / applyScripts); futures are oneshot channels the harness completes between polls; a Suspend inside the value of a pending Suspend is covered (Hydrate.compileB: "
         "continuation style, its readiness decided by the stream machine when the outer future resolves; the harness nests one level); "
         "Suspend inside <Suspense> (C07) and nonces are not covered; the out-of-order theorem assumes C07's string hygiene (cleanOps: no marker / <template / <script text in strings)",
+        "inside the class suspend-position two string states can share one text node, which makes the order and the condition of every write observable: there the generator uses String "
+        "instead of Arc<str> (Arc<str>::rebuild writes whenever the pointer differs, the model when the string differs) and no InertElement (its failed cast is a bare unwrap()); "
+        "Cow<'static, str> is decoded as String (RenderHtml::Owned = String: an AnyView made of it is a String view with the same TypeId)",
         "Suspend::rebuild runs in a spawned task: the harness runs the tasks to idle (hx_common::sched, FIFO) after each rebuild, the model rebuilds in two phases (syncPart, then the values)",
         "grammar: ordinary containers and void elements of the parser table, nested as the HTML tree builder accepts without implied end tags "
         "(C06's assumption); strings free of NUL/CR (F-C06-3/4); plain / boolean / optional attributes with distinct tokenizable names "
